@@ -65,7 +65,8 @@ static void exec(vh::Rng & r, vh::Out & out)
     for (int i = 0; i < n; ++i) {
       long long d = 0; for (int k = 0; k < est; ++k) {d += rows[i][k] * z[k];}
       y[i] = d;
-      if (weighted) {w[i] = r.range(1, 3);}
+      // weights of either sign; rows beyond the first est (which keep the problem full rank) may also be switched off with weight 0
+      if (weighted) {w[i] = r.range(1, 3) * (r.coin(1, 4) ? -1 : 1); if (i >= est && r.coin(1, 6)) {w[i] = 0;}}
     }
     for (int i = est + 1; i < n; ++i) {             // residual +t / -t on a duplicated pair: J^T r = 0
       if (rows[i] == rows[i - 1] && i % 2 == 1) {long long t = r.range(-5, 5); y[i] += t; y[i - 1] -= t; w[i] = w[i - 1];}
